@@ -222,7 +222,11 @@ class Session:
             if b.get("failures"):
                 continue
             bk = {self._fkey(f) for f in b.get("functions", [])}
-            if any(k == q or (k[0] == q[0] and (k[1] == q[1] or q[1] == q[0] or k[1] == k[0])) for k in keys for q in bk):
+            mods = {q[0] for q in bk}
+            if ("calculator", "Calculator") in bk:
+                # a whole-calculation stand-in (Calculator built and compared with an independent recomputation) exercises every module of the core
+                mods |= {"calculator", "full_modulus", "qha_adapter", "tasks", "mode_gamma", "nonshear", "shear", "elast_dat", "qha_input", "fill", "config", "results_writer"}
+            if any(k[0] in mods for k in keys):
                 return b["name"]
         return None
 
